@@ -24,6 +24,7 @@ import (
 	amhelp "github.com/pancsta/asyncmachine-go/pkg/helpers"
 	am "github.com/pancsta/asyncmachine-go/pkg/machine"
 	"github.com/pancsta/asyncmachine-go/pkg/rpc/states"
+	"github.com/pancsta/asyncmachine-go/pkg/x/simhook"
 )
 
 func init() {
@@ -848,6 +849,7 @@ func (t *sourceTracer) TransitionEnd(tx *am.Transition) {
 
 	// TODO optimize: fork max 1?
 	go func() {
+		simhook.At("rpc.push.fork", s.Mach.Id())
 		s.log("tracer push: tt%d q%d (check:%d) %s", trackedTSum, qTick,
 			d.checksum, calledTracked)
 
